@@ -31,7 +31,8 @@ const char *killat_name[KA_N] = {"any", "write", "fopen", "locked", "fclose", "r
 // at == KA_WRITE: the kill lands inside the nth rewrite (open-truncate .. close) of `file` by `proc`, after
 // frac x (size of the job file before the rewrite) bytes have reached the file
 struct KillSpec { int proc = 0; int at = KA_ANY; int nth = 1; double frac = 0.5; int file = 0; long abs_bytes = -1; /* >= 0: exact byte offset (enumeration) */
-                  bool sigterm = false; /* deliver SIGTERM instead of SIGKILL: a registered handler runs first (the code as given has none) */ };
+                  bool sigterm = false; /* deliver SIGTERM instead of SIGKILL: a registered handler runs first (the code as given has none) */
+                  int stall_s = 0;      /* > 0: not a kill at all: the task sleeps this many simulated seconds (suspended / very slow process) */ };
 
 enum StartKind { ST_NOW = 0, ST_AFTER_SYNCS, ST_AFTER_END, ST_PHASE2 };
 
@@ -662,6 +663,7 @@ struct Jobs {
         k.frac = r.chance(0.4) ? fr[r.below(6)] : r.unit() * 1.15;
         k.file = r.chance(0.6) ? 0 : 1;
         k.sigterm = k.at != KA_WRITE && r.chance(0.3);
+        if (k.at != KA_WRITE && r.chance(0.2)) { k.sigterm = false; int ss[3] = {2, 90, 900}; k.stall_s = ss[r.below(3)]; }
         p.kills.push_back(k);
       }
       p.short_write = r.chance(0.5) ? 0 : (r.chance(0.5) ? 0.1 : 0.4);
@@ -770,7 +772,7 @@ struct Jobs {
     js::Value ks = js::Value::arr();
     for (auto &k : p.kills) {
       js::Value o = js::Value::obj();
-      o.set("proc", k.proc).set("at", k.at).set("at_name", killat_name[k.at]).set("nth", k.nth).set("frac", k.frac).set("file", k.file).set("abs_bytes", k.abs_bytes).set("sigterm", k.sigterm);
+      o.set("proc", k.proc).set("at", k.at).set("at_name", killat_name[k.at]).set("nth", k.nth).set("frac", k.frac).set("file", k.file).set("abs_bytes", k.abs_bytes).set("sigterm", k.sigterm).set("stall_s", k.stall_s);
       ks.push(o);
     }
     v.set("kills", ks);
@@ -793,7 +795,7 @@ struct Jobs {
     }
     for (auto &o : v.at("kills").a) {
       KillSpec k;
-      k.proc = (int)o.num("proc", 0); k.at = (int)o.num("at", 0); k.nth = (int)o.num("nth", 1); k.frac = o.at("frac").d; k.file = (int)o.num("file", 0); k.abs_bytes = (long)o.num("abs_bytes", -1); k.sigterm = o.has("sigterm") && o.at("sigterm").b;
+      k.proc = (int)o.num("proc", 0); k.at = (int)o.num("at", 0); k.nth = (int)o.num("nth", 1); k.frac = o.at("frac").d; k.file = (int)o.num("file", 0); k.abs_bytes = (long)o.num("abs_bytes", -1); k.sigterm = o.has("sigterm") && o.at("sigterm").b; k.stall_s = (int)o.num("stall_s", 0);
       p.kills.push_back(k);
     }
     p.short_write = v.at("short_write").d; p.short_read = v.at("short_read").d; p.fail_rate = v.at("fail_rate").d; p.fail_with_output = v.at("fail_with_output").b;
@@ -966,6 +968,15 @@ struct Jobs {
         auto hit = [&](int at) {
           w.kill_count[at][q]++;
           if (w.kill_due(q, at)) {
+            int stall = 0;
+            for (auto &k : w.plan->kills) if (k.proc == q && k.at == at && k.stall_s > 0) stall = k.stall_s;
+            if (stall > 0) {
+              w.counters["fault.stall"]++;
+              if (simio::lock_mode_of(sp)) w.counters["probe.stall_while_holding_file_lock"]++;
+              w.note("STALL p" + std::to_string(q) + " for " + std::to_string(stall) + " s at " + killat_name[at]);
+              sim::sleep_ns((long long)stall * 1000000000LL);
+              return;
+            }
             bool term = false;
             for (auto &k : w.plan->kills) if (k.proc == q && k.at == at && k.sigterm) term = true;
             if (term) w.ps[q].killed = true;   // whatever the handler does, the termination was injected
